@@ -24,6 +24,7 @@ func init() {
 // typeSwitchClassifier evaluates a `func(Node) bool` made of one type switch whose cases return boolean
 // combinations of atoms; returns kind → atoms-assignment-key → value.
 type classifier struct {
+	den *denum
 	fd      *ast.FuncDecl
 	cases   map[string]ast.Expr // type name → returned expression
 	dflt    bool
@@ -32,42 +33,77 @@ type classifier struct {
 
 func parseClassifier(p *packages.Package, fd *ast.FuncDecl) *classifier {
 	cl := &classifier{fd: fd, cases: map[string]ast.Expr{}}
-	var ts *ast.TypeSwitchStmt
-	for _, st := range fd.Body.List {
-		if t, ok := st.(*ast.TypeSwitchStmt); ok {
-			ts = t
+	decls := map[types.Object]*ast.FuncDecl{}
+	for _, f := range allFuncDecls(p) {
+		if f != fd && f.Recv == nil {
+			decls[p.TypesInfo.Defs[f.Name]] = f // plain helper predicates are looked into; methods of nodes stay atoms
 		}
 	}
-	if ts == nil {
-		return cl
-	}
-	cl.okShape = true
-	for _, c := range ts.Body.List {
-		cc := c.(*ast.CaseClause)
-		if len(cc.Body) != 1 {
+	cl.den = &denum{info: p.TypesInfo, pkg: p.Types, inits: map[types.Object]ast.Expr{}, limit: 20000, decls: decls}
+	cl.den.finish(cl.den.run(fd.Body.List, []dstate{{env: map[types.Object]ast.Expr{}}}))
+	cl.okShape = cl.den.undecided == ""
+	for _, pth := range cl.den.paths {
+		if pth.Ret == nil || len(pth.Ret.Results) != 1 {
 			cl.okShape = false
 			continue
 		}
-		ret, ok := cc.Body[0].(*ast.ReturnStmt)
-		if !ok || len(ret.Results) != 1 {
+		if id, ok := ast.Unparen(pth.Ret.Results[0]).(*ast.Ident); !ok || (id.Name != "true" && id.Name != "false") {
 			cl.okShape = false
+		}
+	}
+	return cl
+}
+
+// atomsFor: the (normalised) boolean atoms on the paths that a node of this kind can take.
+func (cl *classifier) atomsFor(kind string) map[string]bool {
+	out := map[string]bool{}
+	for _, pth := range cl.den.paths {
+		ok := true
+		for _, pc := range pth.Conds {
+			if _, isTA := pc.Expr.(*ast.TypeAssertExpr); isTA && !cl.den.typeAtomHolds(pc.Expr, kind) {
+				ok = false
+			}
+		}
+		if !ok {
 			continue
 		}
-		for _, e := range cc.List {
-			t := p.TypesInfo.TypeOf(e)
-			if nt, ok := t.(*types.Named); ok {
-				cl.cases[nt.Obj().Name()] = ret.Results[0]
+		for _, pc := range pth.Conds {
+			if _, isTA := pc.Expr.(*ast.TypeAssertExpr); !isTA {
+				if _, isNilTest := cl.paramNilTest(pc.Expr); isNilTest {
+					continue
+				}
+				out[normAtomText(types.ExprString(pc.Expr))] = true
 			}
 		}
 	}
-	// statements after the switch: return <const>
-	last := fd.Body.List[len(fd.Body.List)-1]
-	if ret, ok := last.(*ast.ReturnStmt); ok && len(ret.Results) == 1 {
-		cl.dflt = types.ExprString(ret.Results[0]) == "true"
-	} else {
-		cl.okShape = false
+	return out
+}
+
+// paramNilTest: the atom compares the classifier's parameter with nil; returns the truth value it has for a non-nil node.
+func (cl *classifier) paramNilTest(e ast.Expr) (bool, bool) {
+	be, ok := ast.Unparen(e).(*ast.BinaryExpr)
+	if !ok || (be.Op != token.EQL && be.Op != token.NEQ) {
+		return false, false
 	}
-	return cl
+	var prm types.Object
+	if len(cl.fd.Type.Params.List) == 1 && len(cl.fd.Type.Params.List[0].Names) == 1 {
+		prm = cl.den.info.Defs[cl.fd.Type.Params.List[0].Names[0]]
+	}
+	for _, pair := range [][2]ast.Expr{{be.X, be.Y}, {be.Y, be.X}} {
+		id, isID := ast.Unparen(pair[0]).(*ast.Ident)
+		nl, isNil := ast.Unparen(pair[1]).(*ast.Ident)
+		if isID && isNil && nl.Name == "nil" && prm != nil && cl.den.info.ObjectOf(id) == prm {
+			return be.Op == token.NEQ, true
+		}
+	}
+	return false, false
+}
+
+func normAtomText(s string) string {
+	if i := strings.Index(s, "."); i >= 0 {
+		return s[i+1:]
+	}
+	return s
 }
 
 // normAtom strips the receiver variable: n.IsBlockElement() → IsBlockElement(), n.IndentChildren → IndentChildren
@@ -84,16 +120,30 @@ func normAtoms(e ast.Expr) map[string]string {
 }
 
 func (cl *classifier) eval(kind string, asg map[string]bool) bool {
-	e, ok := cl.cases[kind]
-	if !ok {
-		return cl.dflt
+	for _, pth := range cl.den.paths {
+		ok := true
+		for _, pc := range pth.Conds {
+			if _, isTA := pc.Expr.(*ast.TypeAssertExpr); isTA {
+				if !cl.den.typeAtomHolds(pc.Expr, kind) {
+					ok = false
+				}
+				continue
+			}
+			if v, isNilTest := cl.paramNilTest(pc.Expr); isNilTest {
+				if v != pc.Val {
+					ok = false
+				}
+				continue
+			}
+			if v, known := asg[normAtomText(types.ExprString(pc.Expr))]; known && v != pc.Val {
+				ok = false
+			}
+		}
+		if ok && pth.Ret != nil && len(pth.Ret.Results) == 1 {
+			return types.ExprString(pth.Ret.Results[0]) == "true"
+		}
 	}
-	m := normAtoms(e)
-	full := map[string]bool{}
-	for raw, norm := range m {
-		full[raw] = asg[norm]
-	}
-	return evalBool(e, full)
+	return false
 }
 
 func runC08(c *Ctx) {
@@ -201,11 +251,12 @@ func runC08(c *Ctx) {
 				continue
 			}
 			hasTS := false
-			for _, st := range fd.Body.List {
-				if _, ok := st.(*ast.TypeSwitchStmt); ok {
+			ast.Inspect(fd.Body, func(n ast.Node) bool {
+				if _, ok := n.(*ast.TypeSwitchStmt); ok {
 					hasTS = true
 				}
-			}
+				return true
+			})
 			if hasTS {
 				out = append(out, fd)
 			}
@@ -237,28 +288,13 @@ func runC08(c *Ctx) {
 			}
 			sort.Strings(kinds)
 			c.count("node_kinds", len(kinds))
-			atomNames := map[string]bool{}
-			for _, cl := range []*classifier{block, inline} {
-				for _, e := range cl.cases {
-					for _, norm := range normAtoms(e) {
-						atomNames[norm] = true
-					}
-				}
-			}
-			var atoms []string
-			for a := range atomNames {
-				atoms = append(atoms, a)
-			}
-			sort.Strings(atoms)
 			neval := 0
 			for _, k := range kinds {
 				// only enumerate atoms relevant to this kind
 				rel := map[string]bool{}
 				for _, cl := range []*classifier{block, inline} {
-					if e, ok := cl.cases[k]; ok {
-						for _, norm := range normAtoms(e) {
-							rel[norm] = true
-						}
+					for a := range cl.atomsFor(k) {
+						rel[a] = true
 					}
 				}
 				var ra []string
